@@ -77,6 +77,13 @@ THEOREMS = [
     "Lena.C20.current_exceptions_ok",
     "Lena.C20.lena_exceptions_derive",
     "Lena.C20.current_raises_documented",
+    # clause 2a for locals: reads of a local that is unbound on every path that reaches them (after `except .. as`,
+    # after `del`, before any binding) -- UnboundLocalError is a NameError
+    "Lena.C20.dead_loads_ok_iff",
+    "Lena.C20.local_name_errors_exact",
+    "Lena.C20.no_local_name_error",
+    "Lena.C20.current_no_dead_local_loads",
+    "Lena.C20.current_no_local_name_error",
 ]
 # definitional unfoldings that pin the transcription, corollaries, glue and lemmas about the state encoding: audited
 # like the others, not counted as obligations of the property
@@ -148,7 +155,14 @@ ASSUMPTIONS = [
     "name is accepted (nothing fails) unless it makes the two interpreters differ; imports inside conditional blocks "
     "are not assumed afterwards",
     "which locals are followed: locals bound only by import statements, locals bound only by `x = name.a.b` (aliases of "
-    "modules), closure cells.  ORDINARY LOCALS ARE NOT FOLLOWED: an UnboundLocalError is reported only when a behaviour "
+    "modules), closure cells.  ORDINARY LOCALS: only the CERTAIN case is a verdict -- a read (or del) of a local that is "
+    "unbound on EVERY path from the function's entry to the read: after the end of `except E as x` (Python 3 deletes x "
+    "there), after `del x`, or before anything has bound it (definite-UNassignment analysis, twice and independently: "
+    "on the source by the translator -> DeadLoad facts -> deadLoadsOk / current_no_dead_local_loads, and on the bytecode "
+    "by the probe, data-flow over jumps and the exception table; the two lists are compared per function).  Such a "
+    "read raises UnboundLocalError whenever it runs; that the line is reachable at all is assumed (for the handler "
+    "name of Cache.drop_cache the behaviour cases reach it: a directory stands in the place of the cache file).  A "
+    "CONDITIONALLY bound local is never a verdict: an UnboundLocalError is then reported only when a behaviour "
     "case exhibits it (a concrete execution).  CPython's own flag (LOAD_FAST_CHECK: a read the compiler cannot prove "
     "bound) says 'cannot prove', not 'can be unbound': such reads are translated into facts (UnboundFact, compared with "
     "the bytecode) and those outside the allow-list of reads a person looked at are LISTED IN THE EVIDENCE "
@@ -261,7 +275,8 @@ def _tree_payload():
                                            "slot_bits": f["slot_bits"], "venv_env": f["venv_env"], "envs": f["envs"],
                                            "names": f["names"], "ext": f["ext"], "classes": f["classes"],
                                            "exc_root": f["exc_root"], "raises": f["raises"],
-                                           "maybe_unbound": f["maybe_unbound"]}}
+                                           "maybe_unbound": f["maybe_unbound"],
+                                           "dead_loads": f.get("dead_loads", [])}}
     return _state["zoo_payload"]
 
 
@@ -749,7 +764,8 @@ def compare(case, res, replies):
         if not res.get("present"):
             return None if m.get("missing") or not r else f"the model has this function, the bytecode of {case['module']} has not"
         if m.get("missing"):
-            rest = [p for p in res["problems"] if p["kind"] not in ("BuiltinRaise", "NonLenaRaise", "MaybeUnbound")]
+            rest = [p for p in res["problems"] if p["kind"] not in ("BuiltinRaise", "NonLenaRaise", "MaybeUnbound",
+                                                                    "DeadLocalLoad")]
             if res["loads"] or rest:
                 return f"the bytecode loads {res['loads']} global names but the translator emitted no events"
             mr = sorted(m.get("badRaises", []))
@@ -758,6 +774,10 @@ def compare(case, res, replies):
             pu = sorted(p["name"] for p in res["problems"] if p["kind"] == "MaybeUnbound")
             if mr != pr_ or mu != pu:
                 return f"raise / possibly-unbound facts: model {mr} {mu}, interpreter {pr_} {pu}"
+            md = sorted({d[0] for d in m.get("dead", [])})
+            pd = sorted({p["name"] for p in res["problems"] if p["kind"] == "DeadLocalLoad"})
+            if md != pd:
+                return f"locals that are certainly unbound where they are read: translator {md}, bytecode data-flow {pd}"
             return None
         if not r:
             return "no reachable state in the model"
@@ -773,8 +793,14 @@ def compare(case, res, replies):
         pu = sorted(p["name"] for p in res["problems"] if p["kind"] == "MaybeUnbound")
         if mu != pu:
             return f"possibly-unbound locals that are not audited: model {mu}, bytecode {pu}"
+        # two independent definite-UNassignment analyses (source level: translator -> facts -> model; bytecode level:
+        # probe) must name the same locals
+        md = sorted({d[0] for d in m.get("dead", [])})
+        pd = sorted({p["name"] for p in res["problems"] if p["kind"] == "DeadLocalLoad"})
+        if md != pd:
+            return f"locals that are certainly unbound where they are read: translator {md}, bytecode data-flow {pd}"
         res = dict(res, problems=[p for p in res["problems"]
-                                  if p["kind"] not in ("BuiltinRaise", "NonLenaRaise", "MaybeUnbound")])
+                                  if p["kind"] not in ("BuiltinRaise", "NonLenaRaise", "MaybeUnbound", "DeadLocalLoad")])
         if m.get("tracedAgrees") is False:
             return "the traced interpreter (execEvsT) and callFn disagree on this function"
         if r[0] == "ok" and not res["problems"]:
@@ -894,6 +920,10 @@ def _oracle(case, res):
                 elif p["kind"] == "AttributeError" and p.get("inner"):
                     what = (f"module '{p.get('on')}' has no attribute '{p['name']}' (read through the free variable "
                             f"'{p.get('root')}' in the inner function {p['inner']})")
+                elif p["kind"] == "DeadLocalLoad":
+                    what = (f"line {p.get('line')}: the local '{p['name']}' is read where it is unbound on every path that "
+                            f"reaches the read (after the end of `except ... as {p['name']}`, after `del {p['name']}`, or "
+                            f"before anything has bound it): UnboundLocalError, a NameError, whenever that line runs")
                 elif p["kind"] == "NameError" and p.get("unbound_local"):
                     what = (f"local name '{p['name']}' is bound only by an import statement that is not certain to have "
                             f"run (UnboundLocalError)")
